@@ -129,6 +129,29 @@ CHECKS['C12'] = {
 	'ref': 'DESIGN.md §5 C12, §10',
 }
 
+# what rounds 5 and 6 added to the claimed level (appended to 'text'; details in DESIGN.md §10.6, §10.7)
+ADD = {
+	'C01': 'Rounds 5-6: break/continue and augmented assignment in the statements core (stmt_agree over all outcomes), statement templates read as C++ and pinned by stmt_forms, for_test_reparses; search selects programs so that every generator feature occurs at least twice; 22 keyed known findings.',
+	'C02': 'Rounds 5-6: candidate order of every tag as theorems over the generated resolver table; every match_feature body pinned by a translator (match_feature_consts/_owners/_words), classify_enum / classify_class_def for any number and position of bases; node kind compared wherever classification goes by a name.',
+	'C03': 'Rounds 5-6: member_depth_first (multiple inheritance, tree-shaped hierarchies), Model/InferOps (try_operation over user classes incl. the inherits loop, spread): user_operator_left_decides, user_chain_type, spread_items, sound_spread with counterexample theorems for the listed findings.',
+	'C04': 'Rounds 5-6: Modules.load, the four unload methods, Py2Cpp.transpile and Interactive.rebuild_module are read from the source as programs and proved equal to the model (load_generated, unload_generated, transpile_generated, resubmit_generated); the shipped library closure generated and decided (lib_closure_reach, lib_closure_closed, baseWorld_load_shipped_partial); failed_load_leaves_no_residue for every failure kind.',
+	'C05': 'Rounds 5-6: the tree key follows the generated identity (tree_key_inputs, tree_key_covers_bytes: the key covers the file bytes exactly when the identity holds the content hash, as it does after fix 0f5d… in /repo); old-generation and recurring-mtime histories in the search.',
+	'C06': 'Rounds 5-6: compared_inputs_distinct (the five compared header fields read five pairwise different source expressions, generated), skip_implies_equal_header_inputs, writer model (whole-content write) tied by a Writer stream; forced reference run into an empty directory.',
+	'C07': 'Rounds 5-6: the interactive loop with requests as lists of lines and the exit test read from the source (quit_test_total, request_survives, session_survives, tty_request_shape), unload_clears_importers, writer_flush_outcome; every provoked error is rendered through ErrorRender for every node.',
+	'C08': 'Rounds 5-6: generated table of every comparison of a user-controlled name with constant words and the type guards around it (name_sites_guarded), site_table_defects, view-helper model; renamings that create or destroy a prefix/suffix/infix relation between every pair of identifiers that can meet.',
+	'C09': 'Rounds 5-6: chain_semantics, shipped_* theorems over the generated handler table; annotation = body shape for all 165 shipped getters (shipped_annotation_matches_body), WF reduced to clause 2 for shipped-shaped trees (shipped_wf_reduces_to_under); handler layouts fallback/dedicated/mixed with a dispatch oracle.',
+	'C10': 'Rounds 5-6: ASTFinder.find/exists/full_pathfy(depth) (find_spec, find_sound, find_complete), pluck_deindexed (index-less lookup = last child with the tag), relativefy_exact, DSN algebra, Resolver.load, and the depth hypothesis of expand_spec_full discharged over a generated child table of the grammar (grammar_chain_free, expand_spec_full_grammar).',
+	'C11': 'Rounds 5-6: soundness of the engine against a declarative reading of the rule set (T6_sound, T6_complete_counterexample, shape theorems for ternary / walrus / prefix operators over the generated table), T7_ordered_choice, T7_greedy, parse_history_free; cost search counting _match_symbol calls (known findings cost:exponential-in-nesting).',
+	'C12': 'Rounds 5-6: history search on the grammar side (one parser over sequences of grammar texts), gram-check-file search through real files (LF/CRLF, raw control characters in terminals), translator pin of how gram_check opens its files; known finding render-import:quote-or-line-break-in-terminal.',
+	'C13': 'Rounds 5-6: the control-flow shape of parse_symbol / handle_white_space / handle_symbol generated from the source and proved equal to the model (shape_*), first_token_unique, lex_unique, layout theorems for blanks, comments, head, tail and tight comments (layout_closure_all), end-of-input boundary table in the CPython search.',
+	'C14': 'Rounds 5-6: exact round trip including via and the entries of other modules (rt_exact, import_frame, rt_unload_exact), the JSON text level (text_rt, export_text_rt, rt_text_exact), row_schema_generated from serializer.py/sequence.py, export_history_independent.',
+	'C15': 'Rounds 5-6: cache_file_injective; shape_identity accepts the pinned identity entries followed by nothing or by the content hash; wide nodes with empty slots and statement-free modules in the searches.',
+	'C16': 'Rounds 5-6: span_begins_at_first_token / span_ends_at_last_token over generated FIRST/LAST tables, span_region, span_holds_exactly_own_tokens, tree_quotation, quotation_shape, collector_shape; stored files with CRLF / bare CR judged against the bytes on disk; known finding comment-span-includes-cr.',
+	'C17': 'Rounds 5-6: sound / agree / refuse and output_agree / output_sound (folded value and emitted token), Unicode decimal digits in pyInt, \\u/\\U escapes, and the C++ reading of an inlined string value (Model/CppLiteral: cpp_reads_python, cpp_escape_counterexample, output_string_cpp; stream cppread against g++); source pins of the 20 modelled evaluator methods.',
+	'C18': 'Rounds 5-6: pair_spec / parse_dict_spec (the parse_pair law, unbounded nesting), format_spec, decorator_total (query_any unconditional), quoted_literal_spec, var_type_origin_spec over the generated regex term, skip_string_in_group, sep_multichar_spec; call sites keyed by (function, helper).',
+	'C19': 'Rounds 5-6: raising factories (invoke_raising, resolve_raising), resolve_cached_creates_nothing, and di.py read by a translator: methods_generated (19 generated method bodies equal the model), code_effects / model_effects, containers_own_their_dicts, clone_combine_generated.',
+}
+
 NOT_YET = {
 }
 
@@ -148,7 +171,7 @@ def main() -> None:
 			'evidence_file': f'evidence/{pid}.json',
 			'replay_cmd_template': f'./check {pid} --replay {{path}}',
 			'engine': 'lean4-model+correspondence',
-			'level_claimed': {'category': 'proof', 'text': c['text'], 'design_ref': c['ref']},
+			'level_claimed': {'category': 'proof', 'text': c['text'] + (' ' + ADD[pid] if pid in ADD else ''), 'design_ref': c['ref']},
 			'level_note': c['note'],
 			'technique': c['technique'],
 		})
